@@ -18,6 +18,8 @@ RSV = z3.Function('RSV', V, V)                         # remove_scaling(v, scali
 HUf = z3.Function('HU', V, R)                          # h(v, *argsh)   (A-callback: deterministic)
 DOT = z3.Function('DOT', V, V, R)
 MATV = z3.Function('MATV', V, V, V)                    # H.dot(s)
+FINV = z3.Function('ALLFINITE', V, z3.BoolSort())          # np.all(np.isfinite(v)): every entry of v is finite
+NONANV = z3.Function('NONAN', V, z3.BoolSort())           # not np.any(np.isnan(v))
 MVF = z3.Function('MVF', V, V, V, V, R)                # util.model_value(g, H, s, xopt, h, ...) as a function of its vector arguments
 
 
@@ -85,6 +87,10 @@ class VecDomain(ParamsMixin, Domain):
         b['np.max'] = lambda eng, n, a, k, st: self._minmax(a, st, True)
         b['float'] = self.b_float_v
         b['list'] = self.b_list_v
+        b['np.isfinite'] = lambda eng, n, a, k, st: ElemTest('finite', a[0]) if a and self.isv(a[0]) else UNK
+        b['np.isnan'] = lambda eng, n, a, k, st: ElemTest('nan', a[0]) if a and self.isv(a[0]) else UNK
+        b['np.all'] = lambda eng, n, a, k, st: FINV(a[0].v) if a and isinstance(a[0], ElemTest) and a[0].kind == 'finite' else UNK
+        b['np.any'] = lambda eng, n, a, k, st: z3.Not(NONANV(a[0].v)) if a and isinstance(a[0], ElemTest) and a[0].kind == 'nan' else UNK
         b['ParameterList.__call__'] = self.params_get
         b['remove_scaling'] = lambda eng, n, a, k, st: RSV(a[0]) if self.isv(a[0]) else UNK
         b['np.dot'] = lambda eng, n, a, k, st: DOT(a[0], a[1]) if len(a) >= 2 and self.isv(a[0]) and self.isv(a[1]) else UNK
@@ -103,6 +109,9 @@ class VecDomain(ParamsMixin, Domain):
         self.params_init(st)
         for ax in vec_axioms():
             st.assume(ax)
+        fv = z3.Const('fv_', V)
+        st.assume(z3.ForAll([fv], z3.Implies(FINV(fv), NONANV(fv))))
+        st.assume(FINV(ZEROV))
         lst, w = z3.Const('l_', PLv), z3.Const('w_', V)
         i = z3.Int('i_')
         st.assume(z3.ForAll([lst, i, w], INC(lst, i, PROJ(lst, i, w))))
@@ -290,7 +299,7 @@ class VecDomain(ParamsMixin, Domain):
         return UNK
 
     def spec_call(self, eng, name, e, st):
-        fs = {'MVF': MVF, 'HU': HUf, 'RSV': RSV, 'norm': norm_f, 'vsub': vsub_f, 'vadd': vadd_f, 'PROJ': lambda l, i, w: PROJ(l.tok if isinstance(l, PListV) else l, i, w),
+        fs = {'ALLFINITE': FINV, 'MVF': MVF, 'HU': HUf, 'RSV': RSV, 'norm': norm_f, 'vsub': vsub_f, 'vadd': vadd_f, 'PROJ': lambda l, i, w: PROJ(l.tok if isinstance(l, PListV) else l, i, w),
               'INC': lambda l, i, w: INC(l.tok if isinstance(l, PListV) else l, i, w)}
         if name in fs:
             args = [eng.ev(a, st) for a in e.args]
@@ -324,6 +333,13 @@ class VecDomain(ParamsMixin, Domain):
             v = as_infor(eng.ev(e.args[0], st))
             return v.val if v is not None else UNK
         return Domain.spec_call(self, eng, name, e, st)
+
+
+class ElemTest:
+    """np.isfinite(v) / np.isnan(v): an elementwise test awaiting its reduction"""
+
+    def __init__(self, kind, v):
+        self.kind, self.v = kind, v
 
 
 class InfOr:
